@@ -61,6 +61,7 @@ type Cfg struct {
 	Crash    string `json:"crash,omitempty"`
 	Race     bool   `json:"race,omitempty"`
 	SoftSec  int    `json:"soft_sec,omitempty"`
+	NoHooks  bool   `json:"passive_hooks,omitempty"`
 }
 
 func (c Cfg) env() map[string]string {
@@ -76,6 +77,9 @@ func (c Cfg) env() map[string]string {
 	}
 	if c.Crash != "" {
 		e["VERIF_CRASH"] = c.Crash
+	}
+	if c.NoHooks {
+		e["VERIF_EVLOG"] = "" // passive hooks: no event log, no monitor mutex between the goroutines
 	}
 	return e
 }
